@@ -18,7 +18,7 @@ RULE = (
     "exhaustive: all sequences of length<=3 over type(5) x duration{0..4} x thinning{0..3} "
     "through EpochManager(...) and incremental append; sampled: length-4/5 sequences, random "
     "append/next interleavings, random stan_epochs argument tuples, builder chunk + real sampling. "
-    "non-trivial = sequence invalid for exactly one reason, valid with thinning>1, admissible "
+    "Also: stan_epochs called again after the caller modified the first result; the same builder re-configured and built a second time. non-trivial = sequence invalid for exactly one reason, valid with thinning>1, admissible "
     "stan tuple with >=2 slow windows, or a sampled schedule; distinct by argument hash"
 )
 REQUIRED = ["accept_iff_valid", "epoch_states_consecutive", "stan_valid", "stan_sum",
